@@ -25,6 +25,8 @@
 #![allow(non_upper_case_globals)]
 
 mod scenarios;
+#[cfg(not(feature = "noalloc"))]
+mod variants;
 
 use common::*;
 use scenarios::{Env, Res, Ret, Scn};
@@ -892,6 +894,19 @@ fn run_case(s: &mut Scn, env: &mut Env, faults: &[Fault], drop_close: Option<i32
             ),
         }
     }
+    // descriptors handed over as Stdio::RawFd are consumed by a spawn that succeeds
+    if s.given_consumed_on_ok && !is_err {
+        for fd in &given {
+            if sh.open.get(fd) == Some(&Origin::Given) {
+                leaked_fds.push(*fd);
+                r.violation(
+                    &format!("C12:{name}:fd-left-open:handed-over-rawfd"),
+                    format!("{name}, {ctxt}: returned {res_txt}; descriptor {fd}, handed over as Stdio::RawFd, was neither passed on and closed nor otherwise consumed — it is still open in the parent although spawn consumes such descriptors on every other path"),
+                    cj.clone(),
+                );
+            }
+        }
+    }
     // mappings (setup_io_uring): on failure nothing may stay mapped
     if is_err && !sh.maps.is_empty() {
         r.violation(
@@ -1092,9 +1107,15 @@ fn run_scenario(mut s: Scn, thorough: bool, start: i32) -> Report {
     // drop with every close reporting an error after really closing
     run_case(&mut s, &mut env, &[], Some(libc::EIO), &mut r, &cx);
     let mut seen: HashSet<Vec<Fault>> = HashSet::new();
-    let singles = points(&base);
+    let light = s.light;
+    // argument-domain variants: quick tier stops after the fault-free case and the drop
+    let singles = if light == 2 && !thorough { Vec::new() } else { points(&base) };
     // other start states: fault-free + every single deviation in the quick tier, everything in the thorough tier
-    let do_pairs = n <= PAIR_BOUND && (start == 0 || thorough);
+    let do_pairs = n <= PAIR_BOUND && (start == 0 || thorough) && match light {
+        0 => true,
+        1 => thorough,
+        _ => false,
+    };
     let mut single_out: Vec<(Fault, CaseOut)> = Vec::new();
     let mut single_leaks: HashMap<Fault, BTreeSet<String>> = HashMap::new();
     let mut single_by_name: HashMap<(String, Ans), BTreeSet<String>> = HashMap::new();
@@ -1154,6 +1175,9 @@ fn c12(args: &Args) -> Report {
             if start != 0 && s.fixed_stdio {
                 continue; // the scenario is about the process's own stdin
             }
+            if start != 0 && s.light == 2 && !thorough {
+                continue; // argument-domain variants: other start states in the thorough tier
+            }
             let nm = if start == 0 { s.name.clone() } else { format!("{}@{}", s.name, START_NAMES[start as usize]) };
             items.push(isolated(nm, move || run_scenario(s, thorough, start)));
         }
@@ -1165,14 +1189,22 @@ fn c12(args: &Args) -> Report {
          non-error answers that steer a branch — ppoll/epoll_pwait = 0 when a timeout was passed, connect = EINPROGRESS/EAGAIN, accept4 = EAGAIN, socket read/write = EAGAIN, read/getdents64/copy_file_range = 0, short counts; \
          out-parameter values — ioctl(TIOCGPTN) index 0/255/256/1000/u32::MAX, stat size 0/2^40/-1 and mode file/dir, wait4 status 0/256/9, getdents64 d_type=DT_UNKNOWN, io_uring_setup without FEAT_SINGLE_MMAP, spawn's 8-byte sync-pipe message); \
          pairs of deviations for scenarios with <= 16 parent calls, the second one enumerated on the log of the run containing the first (quick: pairs whose first member is a non-error answer incl. EAGAIN/EINPROGRESS/EINTR; thorough: all pairs). \
-         close is executed and then reports the error. START STATES: the whole catalogue is run from three descriptor tables — as inherited (0,1,2 occupied), descriptor 0 closed, descriptors 0,1,2 closed \
+         close is executed and then reports the error. \
+         ARGUMENT DOMAIN: every operation taking a Duration / path / socket address / count is also run (scenarios named op[arg=value]) with boundary and out-of-domain values \
+         (Duration ZERO, 1ns, Duration::MAX, i64::MAX s, i64::MAX+1 s; paths empty, 4200 bytes, 300-byte component, in a missing directory, 510..600-byte nested; unix socket paths empty, 107, 108, 4200 bytes; \
+         inet addresses 0.0.0.0, port 0, 65535, broadcast, non-local; counts 0, 1, huge) — quick: fault-free case + drop, thorough: also every single deviation and the other start states. \
+         STDIO GRID: spawn with every (stdin,stdout,stderr) in {{Inherit,Null,MakePipe,RawFd(fresh)}}^3 (quick: up to single deviations), a RawFd must be consumed when spawn returns Ok. \
+         FEATURE SET: this report is from the build `{}`; the crate h-fd/noalloc builds the same sources against tiny-std without `alloc` and runs the entry points that differ there (the free function process::spawn, create_dir_all's stack buffer). \
+         START STATES: the whole catalogue is run from three descriptor tables — as inherited (0,1,2 occupied), descriptor 0 closed, descriptors 0,1,2 closed \
          (the shard's own stdio is parked above 100 and the low numbers are freed only while the operation and the drop of its result run, so the operation is handed 0/1/2); \
          for the two extra start states the quick tier runs the fault-free case, the close-reports-EIO drop and every single deviation, the thorough tier also the pairs. \
          Each (scenario, start state, deviation set) is generated once. Oracle: shadow descriptor table from the call log, cross-checked with /proc/self/fd before / after the operation / after dropping the returned value.",
-        names.len()
+        names.len(),
+        if cfg!(feature = "noalloc") { "tiny-std default-features=false (no alloc)" } else { "tiny-std default features (alloc)" }
     );
     r.bound("scenarios", names.len());
     r.bound("start_states", json!(START_NAMES));
+    r.bound("feature_set", if cfg!(feature = "noalloc") { "no-alloc" } else { "alloc" });
     r.bound("pairs_for_calls_le", PAIR_BOUND);
     r.bound("tier", if thorough { "thorough" } else { "quick" });
     r
@@ -1255,7 +1287,7 @@ fn main() {
     }
     let phase = args.phase.clone().unwrap_or_else(|| "c12".into());
     let r = match phase.as_str() {
-        "c12" => c12(&args),
+        "c12" | "c12-noalloc" => c12(&args),
         _ => panic!("unknown phase"),
     };
     r.write(&args.out);
